@@ -49,6 +49,17 @@
 //!    PN_PREFIX? of the grammar (decided here independently) and the document must parse back to an isomorphic dataset.
 //!    (Not applied to prefixes with two consecutive dots: rio_turtle's parser refuses them although production [167s] has them.)
 //!
+//!  * doc (indices 4_000_000 + k: a directed list, then n/10 random ones): WHOLE DOCUMENTS of the class "no abbreviation of blank nodes"
+//!    (IRI / labelled-blank / quoted subjects and graph names incl. blank graph names, every literal kind, quoted triples as terms,
+//!    rdf:type with several objects, several predicates and objects per subject, several graphs, prefixes named like the key words
+//!    GRAPH / PREFIX, every white-space indentation), every blank node being forced to be labelled (graph name, inside a quoted triple,
+//!    two graphs, twice an object, self-loop).  The real pretty serializer (Turtle and TriG) writes the dataset; the WHOLE output is
+//!    compared BYTE FOR BYTE inside Coq with C04/DocText.v (`wr_doc`, the plan being computed by Model.make_plan on the interned
+//!    dataset), the hypotheses of the document theorems are evaluated (incl. `store_sorted` on the store's iteration order) and the
+//!    reference reader of C04/DocRead.v reads the real bytes back to the quads the model says are stated (`doc_case_ok`); a dataset
+//!    whose output shows an abbreviation must be outside the class for the model (`doc_outside_ok`).  ORACLE: the round trip, and the
+//!    parser returns exactly the quads of the store in the order (graph, subject, rdf:type first).
+//!
 //!  `--witness` runs the recorded witnesses of the defects found on the original tree and exits.
 //!  `--probe-lex HEX` prints what the implementation does with the lexical form (UTF-8 bytes in hex).
 use sophia_api::prefix::{Prefix, PrefixMapPair};
@@ -1058,6 +1069,195 @@ fn gen_pfx_case(k: Option<usize>, mut r: Rng) -> PfxCase {
     PfxCase { cand, ctor, accepted, case: Some(case) }
 }
 
+// ---------------------------------------------------------------- the document stream
+// WHOLE DOCUMENTS of the class "no abbreviation of blank nodes": every blank node that is a subject or an object is forced to be
+// labelled (graph name, inside a quoted triple, in two graphs, twice an object, self-loop), no quoted subject is asserted.
+// The real pretty serializer (Turtle and TriG) writes the dataset; the WHOLE output is compared BYTE FOR BYTE inside Coq with
+// C04/DocText.v (`wr_doc`, the plan being computed by the model of build_labelled on the interned dataset), the hypotheses of the
+// document theorem are evaluated on the case, and the reference reader of C04/DocRead.v reads the real bytes back to the quads the
+// model says are stated, in order (`doc_case_ok`).  A dataset left outside the class on purpose (a blank node that is not forced,
+// an asserted quoted subject) must be found outside the class by the model (`doc_outside_ok`).  ORACLE: the round trip, and --
+// directly on the implementation -- sophia's parser returns exactly the quads of the store, graph after graph, subject after
+// subject, the rdf:type statements of a subject first.
+const DOC_BASE: usize = 4_000_000;
+const D_PREFIXES: &[&str] = &["ex", "e", "a", "GRAPH", "graph", "PREFIX", "prefix", "Graph", "true", "false", "", "rdf", "xsd", "a.b", "x-y", "\u{e9}", "b", "A", "z_9", "GRAPH_", "t"];
+const D_TAGS: &[&str] = &["en", "fr-BE", "EN-us", "x-a", "zh-Hant-TW", "de-1996", "en-a-bcd", "EN", "En-US"];
+const D_INDENTS: &[&str] = &["", " ", "\t", "    ", "  ", "\n", " \t ", "\r\n", "\r"];
+const D_LABELS: &[&str] = &["b", "b1", "1", "a.b", "a.b-c", "a-b", "a\u{b7}b", "_x", "9.9", "a\u{300}", "\u{10000}", "\u{e9}", "a-", "0", "_", "true", "a_b", "GRAPH", "a"];
+struct DocCase { case: Case, note: String }
+fn gen_d_prefixes(r: &mut Rng) -> Vec<(String, String)> {
+    let mut pool: Vec<&str> = D_PREFIXES.to_vec();
+    let k = *r.pick(&[0, 1, 2, 2, 3, 3, 5, 8]);
+    let mut out = vec![];
+    for _ in 0..k { let i = r.below(pool.len()); let p = pool.remove(i); out.push((p.to_string(), r.ps(T_NS).to_string())); }
+    out
+}
+fn gen_d_iri(r: &mut Rng, pm: &[(String, String)]) -> String {
+    for _ in 0..8 { let s = gen_t_iri(r, pm); if Iri::new(s.as_str()).is_ok() { return s; } }
+    format!("{EX}abs")
+}
+fn gen_d_literal(r: &mut Rng, pm: &[(String, String)]) -> T {
+    match gen_t_literal(r, pm) {
+        T::Lang(l, _) => T::Lang(l, r.ps(D_TAGS).to_string()),
+        // (an untagged literal with datatype rdf:langString breaks the Term contract: Term::cmp and Term::eq disagree on it)
+        T::Lit(l, d) => if Iri::new(d.as_str()).is_ok() && d != format!("{RDF}langString") { T::Lit(l, d) } else { T::Lit(l, xsd("string")) },
+        x => x,
+    }
+}
+fn gen_d_term(r: &mut Rng, pm: &[(String, String)], blanks: &[T], pos: usize, depth: usize) -> T {
+    // pos: 0 subject 2 object 4 subject of a quoted triple 5 object of a quoted triple
+    let k = r.below(14);
+    match (pos, k) {
+        (_, 0 | 1) if depth < 2 => qt(gen_d_term(r, pm, blanks, 4, depth + 1), T::Iri(gen_d_iri(r, pm)), gen_d_term(r, pm, blanks, 5, depth + 1)),
+        (_, 2 | 3 | 4) if !blanks.is_empty() => blanks[r.below(blanks.len())].clone(),
+        (2 | 5, 5..=9) => gen_d_literal(r, pm),
+        (0 | 2, 10) if r.chance(1, 3) => rdf("nil"),
+        _ => T::Iri(gen_d_iri(r, pm)),
+    }
+}
+fn top_blanks(quads: &[Q]) -> BTreeSet<String> {
+    let mut s = BTreeSet::new();
+    for (_, t) in quads { for x in [&t[0], &t[2]] { if let T::B(l) = x { s.insert(l.clone()); } } }
+    s
+}
+/// is the blank node forced to be labelled by the rules the generator knows (graph name, inside a quoted triple, in two graphs,
+/// twice an object, self-loop)?  (build_labelled has the last word: Coq runs its model.)
+fn blank_forced(quads: &[Q], l: &str, trig: bool) -> bool {
+    let me = T::B(l.to_string());
+    fn inside(t: &T, me: &T) -> bool { match t { T::Tr(b) => b.iter().any(|x| x == me || inside(x, me)), _ => false } }
+    let mut graphs = BTreeSet::new();
+    let mut as_obj = 0;
+    for (g, t) in quads {
+        let g = if trig { g.clone() } else { None };
+        if g.as_ref() == Some(&me) || t.iter().any(|x| inside(x, &me)) || g.as_ref().is_some_and(|g| inside(g, &me)) { return true; }
+        if t[0] == me && t[2] == me { return true; }
+        if t[0] == me || t[2] == me { graphs.insert(g); }
+        if t[2] == me { as_obj += 1; }
+    }
+    graphs.len() > 1 || as_obj > 1
+}
+fn doc_directed_count() -> usize { 16 + D_INDENTS.len() }
+fn gen_doc_case(mut r: Rng, directed: Option<usize>) -> DocCase {
+    let u = |l: &str| T::Iri(format!("urn:{l}"));
+    let lit = |l: &str| T::Lit(l.to_string(), xsd("string"));
+    let mk = |quads: Vec<Q>, prefixes: Vec<(&str, &str)>, indent: &str, trig: bool, note: &str| DocCase {
+        case: Case { shapes: vec![format!("doc:{note}")], quads, prefixes: prefixes.into_iter().map(|(p, n)| (p.to_string(), n.to_string())).collect(), indent: indent.to_string(), pretty: true, trig, ctor: 0 }, note: note.to_string() };
+    if let Some(k) = directed {
+        let typ = rdf("type");
+        return match k {
+            0 => mk(vec![], vec![("ex", EX), ("", "urn:x:")], "  ", true, "empty-dataset"),
+            1 => mk(vec![(None, [u("s"), u("p"), u("o")])], vec![], "", false, "one-triple"),
+            2 => mk(vec![(Some(u("g1")), [u("s"), u("p"), u("o")]), (Some(b("g2")), [u("s"), u("p"), lit("x")]), (Some(b("g2")), [u("s2"), u("p"), lit("y")])], vec![("u", "urn:")], "\t", true, "named-graphs-only"),
+            3 => mk(vec![(None, [u("s"), typ.clone(), u("C1")]), (None, [u("s"), typ.clone(), u("C2")]), (None, [u("s"), typ.clone(), lit("C3")])], vec![("rdf", RDF)], " ", false, "rdf-type-only"),
+            4 => mk(vec![(None, [u("s"), T::Iri("http://a.example/p".into()), u("o1")]), (None, [u("s"), typ.clone(), u("C")]), (None, [u("s"), u("z"), u("o2")]), (None, [u("s"), u("z"), u("o3")]),
+                         (None, [u("s"), T::Iri("http://a.example/p".into()), u("o0")])], vec![], "  ", false, "rdf-type-between-predicates"),
+            5 => mk(vec![(None, [u("a"), rdf("first"), u("c")]), (None, [qt(u("a"), rdf("first"), u("c")), u("p"), u("o")])], vec![("rdf", RDF)], "  ", false, "quoted-subject-asserted-with-rdf-first"),
+            6 => mk(vec![(None, [u("a"), u("b"), u("c")]), (None, [qt(u("a"), u("b"), u("c")), u("p"), u("o")])], vec![], "  ", false, "OUTSIDE:annotation"),
+            7 => mk(vec![(None, [u("s"), u("p"), b("x")]), (None, [b("x"), u("q"), u("o")])], vec![], "  ", false, "OUTSIDE:blank-not-forced"),
+            8 => mk(vec![(None, [T::Iri("urn:g:x".into()), T::Iri("urn:g:p".into()), T::Iri("urn:p:o".into())]), (Some(T::Iri("urn:g:g".into())), [T::Iri("urn:p:s".into()), T::Iri("urn:g:".into()), T::Iri("urn:p:".into())]),
+                         (None, [T::Iri("urn:h:x".into()), T::Iri("urn:g:p".into()), T::Iri("urn:p:o".into())])],
+                    vec![("GRAPH", "urn:g:"), ("PREFIX", "urn:p:"), ("graph", "urn:h:")], "  ", true, "prefixes-named-like-key-words"),
+            9 => mk(vec![(None, [u("s"), u("p"), u("o")]), (Some(u("g")), [u("s"), u("p"), u("o")]), (Some(b("gb")), [u("s"), u("p"), b("gb")]), (Some(b("gb")), [b("gb"), u("p"), u("s")])], vec![], "    ", true, "one-subject-in-three-graphs"),
+            10 => mk(vec![(None, [u("s"), u("p"), lit("x\" .\n<urn:a> <urn:b> \"y")]), (None, [u("s"), u("p"), lit(" ;")]), (None, [u("s"), u("p"), lit("#")]), (None, [u("s"), u("q"), lit("}")]), (None, [u("s"), u("q"), T::Lang("GRAPH ".into(), "en".into())])],
+                     vec![], "  ", false, "strings-that-look-like-layout"),
+            11 => mk(vec![(None, [qt(u("a"), u("b"), T::Lang("x".into(), "en".into())), u("p"), u("o1")]), (None, [qt(u("a"), u("b"), T::Lang("x".into(), "EN".into())), u("q"), u("o2")]),
+                          (None, [u("s"), u("p"), T::Lang("x".into(), "en".into())]), (None, [u("t"), u("p"), T::Lang("x".into(), "EN".into())])], vec![], "  ", false, "language-tags-differing-in-case"),
+            12 => mk(vec![(None, [rdf("nil"), rdf("nil"), rdf("nil")]), (Some(rdf("nil")), [rdf("nil"), u("p"), qt(rdf("nil"), rdf("nil"), rdf("nil"))])], vec![("rdf", RDF)], "  ", true, "rdf-nil-everywhere"),
+            13 => mk(vec![(None, [b("x"), u("p"), b("x")]), (None, [b("x"), u("q"), lit("v")])], vec![], "  ", false, "self-loop"),
+            14 => mk(vec![(None, [u("s1"), u("p"), b("x")]), (None, [u("s2"), u("p"), b("x")]), (None, [b("x"), typ.clone(), u("C")]), (None, [b("x"), u("q"), T::Lit("12".into(), xsd("integer"))])], vec![("xsd", XSD)], "  ", false, "blank-twice-an-object"),
+            15 => mk(vec![(None, [u("s"), u("a"), T::Lit("true".into(), xsd("boolean"))]), (None, [u("s"), u("a"), T::Lit("1.5".into(), xsd("decimal"))]), (None, [u("s"), u("a"), T::Lit("1e0".into(), xsd("double"))]),
+                          (None, [T::Iri("urn:a".into()), T::Iri("urn:a".into()), T::Iri("urn:a".into())])], vec![("a", "urn:a"), ("", "urn:")], "  ", false, "bare-literals-and-the-word-a"),
+            _ => { let i = (k - 16) % D_INDENTS.len();
+                   mk(vec![(None, [u("s"), typ.clone(), u("C")]), (None, [u("s"), typ.clone(), u("D")]), (None, [u("s"), u("p"), u("o1")]), (None, [u("s"), u("p"), u("o2")]), (None, [u("s"), u("q"), u("o")]),
+                           (Some(u("g")), [u("s"), u("p"), u("o1")]), (Some(u("g")), [u("s"), u("p"), u("o2")]), (Some(u("g")), [u("t"), typ.clone(), u("C")])], vec![("u", "urn:")], D_INDENTS[i], true, "every-indentation") }
+        };
+    }
+    let trig = r.chance(3, 5);
+    let pm = gen_d_prefixes(&mut r);
+    let indent = r.ps(D_INDENTS).to_string();
+    let mut labels: Vec<&str> = D_LABELS.to_vec();
+    let nb = *r.pick(&[0, 1, 1, 2, 2, 3, 4]);
+    let mut blanks: Vec<T> = vec![];
+    for _ in 0..nb { let i = r.below(labels.len()); blanks.push(b(labels.remove(i))); }
+    let mut graphs: Vec<Option<T>> = vec![None];
+    if trig {
+        for _ in 0..r.below(4) { graphs.push(Some(if r.chance(1, 3) && !blanks.is_empty() { blanks[r.below(blanks.len())].clone() } else if r.chance(1, 10) { rdf("nil") } else { T::Iri(gen_d_iri(&mut r, &pm)) })); }
+        if r.chance(1, 6) && graphs.len() > 1 { graphs.remove(0); }
+    }
+    let mut quads: Vec<Q> = vec![];
+    let nsubj = r.range(1, 4);
+    let mut subjects: Vec<T> = vec![];
+    for _ in 0..nsubj {
+        let s = if !subjects.is_empty() && r.chance(1, 4) { subjects[r.below(subjects.len())].clone() } else { gen_d_term(&mut r, &pm, &blanks, 0, 0) };
+        subjects.push(s.clone());
+        let g = graphs[r.below(graphs.len())].clone();
+        let npred = r.range(1, 3);
+        for _ in 0..npred {
+            let p = if r.chance(1, 4) { rdf("type") } else if r.chance(1, 12) { rdf("nil") } else { T::Iri(gen_d_iri(&mut r, &pm)) };
+            let nobj = *r.pick(&[1, 1, 2, 3]);
+            for _ in 0..nobj { let o = gen_d_term(&mut r, &pm, &blanks, 2, 0); quads.push((g.clone(), [s.clone(), p.clone(), o])); }
+        }
+    }
+    if !trig { for q in quads.iter_mut() { q.0 = None; } }
+    // force every blank node that is a subject or an object to be labelled (sometimes one is left alone on purpose)
+    let leave_one = r.chance(1, 12);
+    let mut note = String::from("random");
+    for (i, l) in top_blanks(&quads).into_iter().enumerate() {
+        let me = b(&l);
+        if blank_forced(&quads, &l, trig) && r.chance(2, 3) { continue; }
+        if leave_one && i == 0 { note = "random:one-blank-left-alone".into(); continue; }
+        let g = if trig { graphs[r.below(graphs.len())].clone() } else { None };
+        match r.below(if trig { 5 } else { 3 }) {
+            0 => quads.push((g, [T::Iri(format!("urn:force:{i}")), T::Iri("urn:says".into()), qt(me.clone(), T::Iri("urn:p".into()), T::Iri("urn:o".into()))])),
+            1 => { quads.push((g.clone(), [T::Iri(format!("urn:force:{i}a")), T::Iri("urn:sees".into()), me.clone()])); quads.push((g, [T::Iri(format!("urn:force:{i}b")), T::Iri("urn:sees".into()), me.clone()])); }
+            2 => quads.push((g, [me.clone(), T::Iri("urn:self".into()), me.clone()])),
+            3 => quads.push((Some(me.clone()), [T::Iri(format!("urn:force:{i}")), T::Iri("urn:in".into()), T::Iri("urn:o".into())])),
+            _ => { quads.push((None, [me.clone(), T::Iri("urn:here".into()), T::Iri("urn:o".into())])); quads.push((Some(T::Iri("urn:elsewhere".into())), [me.clone(), T::Iri("urn:there".into()), T::Iri("urn:o".into())])); }
+        }
+    }
+    let mut seen = BTreeSet::new();
+    quads.retain(|q| seen.insert((q.0.as_ref().map(canon), [canon(&q.1[0]), canon(&q.1[1]), canon(&q.1[2])])));
+    DocCase { case: Case { shapes: vec![format!("doc:{note}")], quads, prefixes: pm, indent, pretty: true, trig, ctor: 0 }, note }
+}
+/// does the output show an abbreviation: `[` (property list or anonymous node), a non-empty `(`, `{|` -- outside strings and IRIs
+fn shows_abbreviation(text: &str) -> bool {
+    let cs: Vec<char> = text.chars().collect();
+    let mut i = 0;
+    while i < cs.len() {
+        let c = cs[i];
+        if c == '"' { i += 1; while i < cs.len() && cs[i] != '"' { if cs[i] == '\\' { i += 1; } i += 1; } i += 1; }
+        else if c == '<' && i + 1 < cs.len() && cs[i + 1] == '<' { i += 2; }
+        else if c == '<' { while i < cs.len() && cs[i] != '>' { i += 1; } i += 1; }
+        else if c == '\\' { i += 2; }     // an escaped character of a local name
+        else if c == '[' { return true; }
+        else if c == '(' { if i + 1 < cs.len() && cs[i + 1] == ')' { i += 2; } else { return true; } }
+        else if c == '{' && i + 1 < cs.len() && cs[i + 1] == '|' { return true; }
+        else { i += 1; }
+    }
+    false
+}
+/// the store (PrettifiableDataset) of a case, in its iteration order
+fn store_of(c: &Case) -> Vec<Gspo<ST>> {
+    let mut set: BTreeSet<Gspo<ST>> = BTreeSet::new();
+    for (g, t) in &c.quads { set.insert((if c.trig { g.as_ref().map(to_st) } else { None }, [to_st(&t[0]), to_st(&t[1]), to_st(&t[2])])); }
+    set.into_iter().collect()
+}
+/// the quads in the order the pretty writer states them (independent of the Coq model): graph after graph, subject after
+/// subject, the rdf:type statements of a subject first; graph name and subject in the spelling of the first quad of the group
+fn stated_order(store: &[Gspo<ST>]) -> Vec<Q> {
+    let ty = iri(&format!("{RDF}type"));
+    let mut out = vec![];
+    let mut i = 0;
+    while i < store.len() {
+        let mut j = i;
+        while j < store.len() && sophia_api::term::graph_name_eq(store[j].0.as_ref(), store[i].0.as_ref()) && Term::eq(&store[j].1[0], &store[i].1[0]) { j += 1; }
+        let (g, s) = (store[i].0.as_ref().map(from_term), from_term(&store[i].1[0]));
+        for pass in 0..2 { for q in &store[i..j] { if Term::eq(&q.1[1], &ty) == (pass == 0) { out.push((g.clone(), [s.clone(), from_term(&q.1[1]), from_term(&q.1[2])])); } } }
+        i = j;
+    }
+    out
+}
+
 // ---------------------------------------------------------------- recorded witnesses
 fn witnesses() -> Vec<(&'static str, Case)> {
     let base = |shapes: &[&str], quads: Vec<Q>, trig: bool| Case { shapes: shapes.iter().map(|s| s.to_string()).collect(), quads, prefixes: vec![("ex".into(), EX.into())], indent: "  ".into(), pretty: true, trig, ctor: 0 };
@@ -1148,17 +1348,72 @@ non-trivial = the dataset has a blank node, a quoted triple, a list, a numeric/b
     let mut seen = std::collections::HashSet::new();
     let deep_n = deep_directed_count() + (a.n / 80).min(300);
     let pfx_n = pfx_directed_count() + (a.n / 8).min(3000);
-    let range: Vec<usize> = match a.only { Some(i) => vec![i], None => (0..a.n).chain(TERM_BASE..TERM_BASE + a.n / 4).chain(DEEP_BASE..DEEP_BASE + deep_n).chain(PFX_BASE..PFX_BASE + pfx_n).collect() };
+    let doc_n = doc_directed_count() + (a.n / 10).min(4000);
+    let range: Vec<usize> = match a.only { Some(i) => vec![i], None => (0..a.n).chain(TERM_BASE..TERM_BASE + a.n / 4).chain(DEEP_BASE..DEEP_BASE + deep_n).chain(PFX_BASE..PFX_BASE + pfx_n).chain(DOC_BASE..DOC_BASE + doc_n).collect() };
     let mut last_idx = 0usize;
     let clip = |x: &str| -> String { if x.chars().count() > 1200 { format!("{} [...]", x.chars().take(1200).collect::<String>()) } else { x.to_string() } };
-    let mut stream_ms = [0usize; 4];
+    let mut stream_ms = [0usize; 5];
     let mut last_ms = now_ms();
     for idx in range {
         let t = now_ms();
-        stream_ms[if last_idx >= PFX_BASE { 3 } else if last_idx >= DEEP_BASE { 2 } else if last_idx >= TERM_BASE { 1 } else { 0 }] += t - last_ms;
+        stream_ms[if last_idx >= DOC_BASE { 4 } else if last_idx >= PFX_BASE { 3 } else if last_idx >= DEEP_BASE { 2 } else if last_idx >= TERM_BASE { 1 } else { 0 }] += t - last_ms;
         last_ms = t; last_idx = idx;
         CURRENT_CASE.store(idx, Ordering::Relaxed);
         CASE_START_MS.store(now_ms(), Ordering::Relaxed);
+        if idx >= DOC_BASE {
+            // ---- the document stream
+            let k = idx - DOC_BASE;
+            let dc = gen_doc_case(base.fork(idx as u64), if k < doc_directed_count() { Some(k) } else { None });
+            let c = &dc.case;
+            let desc = describe(c);
+            sum.evaluations += 1;
+            if seen.insert(desc.clone()) { sum.distinct_nontrivial += 1; }
+            if sum.samples.len() < 18 && k % 41 == 7 { sum.samples.push(format!("case {idx}: {}", clip(&desc))); }
+            sum.bump(if c.trig { "doc-syntax:trig" } else { "doc-syntax:turtle" });
+            sum.bump(&format!("doc-indentation:{:?}", c.indent));
+            let mut fail: Option<String> = None;
+            let mut shown = String::new();
+            match oracle(c) {
+                Err(e) => fail = Some(e),
+                Ok(text) if text == REFUSED => sum.bump("doc:configuration-refused"),
+                Ok(text) => {
+                    shown = text.clone();
+                    let store = store_of(c);
+                    let (terms, _) = intern(c);
+                    let (pmc, tab) = (coq_pm(&c.prefixes), coq_list(terms.iter().map(|t| coq_term(t))));
+                    let d = coq_list(store.iter().map(|(g, [s, p, o])| format!("({}, {}, {}, {})", coq_opt(g.as_ref().map(|g| coq_term(g))), coq_term(s), coq_term(p), coq_term(o))));
+                    let graphs: BTreeSet<Option<ST>> = store.iter().map(|q| q.0.clone()).collect();
+                    sum.bump(&format!("doc-graphs:{}", graphs.len()));
+                    sum.bump(&format!("doc-quads:{}", match store.len() { 0 => "0", 1..=3 => "1-3", 4..=8 => "4-8", 9..=16 => "9-16", _ => ">16" }));
+                    if shows_abbreviation(&text) {
+                        sum.bump("doc-class:outside(abbreviation-in-the-output)");
+                        cases.push((idx, format!("doc_outside_ok absf {pmc} [] {} {tab} {d}", coq_str(&c.indent))));
+                    } else {
+                        sum.bump("doc-class:inside");
+                        if store.iter().any(|q| q.1[1] == iri(&format!("{RDF}type"))) { sum.bump("doc:with-rdf-type"); }
+                        if store.iter().any(|q| q.0.as_ref().is_some_and(|g| g.is_blank_node())) { sum.bump("doc:blank-graph-name"); }
+                        if store.iter().any(|q| q.1.iter().any(|t| t.is_triple())) { sum.bump("doc:quoted-triple"); }
+                        if store.iter().any(|q| q.1[0].is_blank_node() || q.1[2].is_blank_node()) { sum.bump("doc:labelled-blank-subject-or-object"); }
+                        cases.push((idx, format!("doc_case_ok absf {pmc} [] {} {tab} {d} {}", coq_str(&c.indent), coq_bytes(text.as_bytes()))));
+                        // ORACLE, directly on the implementation: the parser returns the quads of the store, in the order the writer states them
+                        match parse_back(c.trig, &text) {
+                            Ok(back) => {
+                                let backc: Vec<Q> = back.iter().map(|(g, t)| (g.as_ref().map(canon), [canon(&t[0]), canon(&t[1]), canon(&t[2])])).collect();
+                                let expected = stated_order(&store);
+                                if backc != expected {
+                                    fail = Some(format!("the document does not state the quads of the store in the expected order (graph, subject, rdf:type first): expected {} ; parsed {} ; output:\n{text}",
+                                        expected.iter().map(show_q).collect::<Vec<_>>().join(" "), backc.iter().map(show_q).collect::<Vec<_>>().join(" ")));
+                                }
+                            }
+                            Err(e) => fail = Some(format!("the output does not parse ({e}); output:\n{text}")),
+                        }
+                    }
+                }
+            }
+            if a.only.is_some() { println!("CASE {idx}: {desc}\n=> {}", match &fail { None => format!("ok; output:\n{shown}"), Some(e) => format!("FAILS: {e}") }); }
+            if let Some(e) = fail { sum.oracle_failures.push((idx.to_string(), format!("shape classes [doc:{}]: {}\ncase: {}", dc.note, clip(&e), clip(&desc)))); }
+            continue;
+        }
         if idx >= PFX_BASE {
             // ---- the prefix stream
             let k = idx - PFX_BASE;
@@ -1326,10 +1581,10 @@ non-trivial = the dataset has a blank node, a quoted triple, a list, a numeric/b
         }
     }
     CASE_START_MS.store(0, Ordering::Relaxed);   // the watchdog only times the implementation
-    stream_ms[if last_idx >= PFX_BASE { 3 } else if last_idx >= DEEP_BASE { 2 } else if last_idx >= TERM_BASE { 1 } else { 0 }] += now_ms() - last_ms;
-    sum.extra.push(("stream_ms(shape,term,deep,prefix)".into(), format!("{:?}", stream_ms)));
+    stream_ms[if last_idx >= DOC_BASE { 4 } else if last_idx >= PFX_BASE { 3 } else if last_idx >= DEEP_BASE { 2 } else if last_idx >= TERM_BASE { 1 } else { 0 }] += now_ms() - last_ms;
+    sum.extra.push(("stream_ms(shape,term,deep,prefix,doc)".into(), format!("{:?}", stream_ms)));
     if a.only.is_none() {
-        let header = "From Sophia.Common Require Import Term.\nFrom Sophia.C04 Require Import Model Deep TermRead TermText.\nFrom Sophia.C09 Require Model.\nDefinition absf := Sophia.C09.Model.iri_new_ok.\n";
+        let header = "From Sophia.Common Require Import Term.\nFrom Sophia.C04 Require Import Model Deep TermRead TermText DocRead DocText.\nFrom Sophia.C09 Require Model.\nDefinition absf := Sophia.C09.Model.iri_new_ok.\n";
         sum.shards = write_shards(&a.out, header, &cases, a.shards);
         sum.extra.push(("coq_cases".into(), cases.len().to_string()));
         std::fs::write(format!("{}/summary.json", a.out), sum.to_json()).unwrap();
